@@ -72,3 +72,34 @@ Example c13_two_clients_reverse_answers :
   | None => False
   end.
 Proof. vm_compute. repeat split. Qed.
+
+(* "every request completes" is FALSE for a waiter without a deadline (finding F5 seen from C13; known): the schedule of
+   c14_prompt_refuted, continued until the background thread has gone back to sleep, ends in a state where the request's reply
+   has been received and processed (ready), yet no thread can take a program step and no answer is pending. Only a timeout of
+   the waiter's poll - which a wait without deadline does not have - or new traffic gets anybody moving again. *)
+Definition stall_forever_schedule : list (label * nat) :=
+  [(LIssue, 0); (LIssue, 1); (LAnswer 0, 0);
+   (LStep, 1); (LStep, 1); (LStep, 1); (LStep, 1);     (* B: loop test, takes the lock, reads W's reply, releases the lock *)
+   (LStep, 0); (LStep, 0);                              (* W: not ready yet -> serve -> takes the free lock: poll on an empty stream *)
+   (LStep, 1); (LStep, 1);                              (* B: notify_all, dispatches W's reply: W's result is ready *)
+   (LStep, 1); (LStep, 1)].                             (* B: loop test, lock is taken by W: goes to sleep on the condition *)
+Lemma runl_reach s0 : forall l s1 s, reach s0 s1 -> runl s1 l = Some s -> reach s0 s.
+Proof.
+  induction l as [|[lb i] r IH]; intros s1 s R H; cbn in H.
+  - injection H as <-. exact R.
+  - destruct (step lb i s1) as [s2|] eqn:E; [|discriminate]. apply (IH s2 s); [econstructor; eauto|exact H].
+Qed.
+Theorem c13_completion_refuted_without_deadline : exists s, reach (init (fun i => Nat.eqb i 1)) s
+  /\ myseq (thrs s 0) = Some 0 /\ ready s 0 = true /\ dispatched s = [0] /\ tpc (thrs s 0) <> Returned
+  /\ (forall i, step LStep i s = None) /\ (forall q i, step (LAnswer q) i s = None)
+  /\ (forall i s', step LTimeout i s = Some s' -> i = 0 \/ i = 1).
+Proof.
+  destruct (runl (init (fun i => Nat.eqb i 1)) stall_forever_schedule) as [s|] eqn:E; [|vm_compute in E; discriminate].
+  exists s. split; [exact (runl_reach _ _ _ s (r0 _) E)|].
+  vm_compute in E. injection E as <-. repeat split.
+  - discriminate.
+  - intros [|[|i]]; reflexivity.
+  - intros [|q] i; reflexivity.
+  - intros [|[|i]] s' H; [now left|now right|discriminate].
+Qed.
+Print Assumptions c13_completion_refuted_without_deadline.
